@@ -51,6 +51,20 @@ theorem advance_effect {s : Sys} (h : SysOK nat blocked SLA SLB SR liteA liteB T
   exact ⟨sameNet_of q5 q6 q7 (fun x => (hg x).2.1.locals) (fun x => (hg x).2.2.closed), q4, fun x => (hg x).2.2,
     fun x => (hg x).2.1, hag, q3⟩
 
+/-- `advance_effect` for every `T` within the horizon (any number of catch-up ticks of either agent) -/
+theorem advance_effect_any {s : Sys} (h : SysOK nat blocked SLA SLB SR liteA liteB T0 H c s) (T : Nat) (h0 : T0 ≤ T) (hT : T ≤ H) :
+    SysOK nat blocked SLA SLB SR liteA liteB T0 H c (s.advance T).1 ∧ AdvEffect T0 T s (s.advance T).1 := by
+  refine ⟨h.advanceAny T h0 hT, ?_⟩
+  obtain ⟨q1, q2, q3, q4, q5, q6, q7⟩ := advance_struct s T h.paired.hasB
+  have hag := advance_agent s T h.paired.hasB
+  have hg : ∀ x, Good T0 H ((s.advance T).1.agent x) ∧ LK T0 T none (s.agent x) ((s.advance T).1.agent x) ∧
+      SameId (s.agent x) ((s.advance T).1.agent x) := by
+    intro x
+    rw [hag]
+    exact step_advance_good hT (h.good x)
+  exact ⟨sameNet_of q5 q6 q7 (fun x => (hg x).2.1.locals) (fun x => (hg x).2.2.closed), q4, fun x => (hg x).2.2,
+    fun x => (hg x).2.1, hag, q3⟩
+
 theorem AdvEffect.mem {T : Nat} {s s' : Sys} (he : AdvEffect T0 T s s') {d : Dgram} (hd : d ∈ s.inflight) : d ∈ s'.inflight := by
   rw [he.flight]
   exact List.mem_append_left _ (List.mem_append_left _ hd)
